@@ -3,6 +3,7 @@ length of what is written, and every reader takes exactly `stored length` bytes.
 from .model import short
 from .roles import M_KEY, M_VAL, M_DBXXX
 from .util import calls_to, origins, leaf_origins, where, is_call_to, chase, field_stores
+from .fields import pf, fname as _fn
 from . import k7
 
 RAW_READ = "rabuf::SmallRead::read_exact_maybeslice"
@@ -56,7 +57,7 @@ def check_payload_sources(ctx, prog, R, rule="payload-is-callers-bytes"):
             for s in blk["stmts"]:
                 if s["s"] == "assign" and s["rhs"]["rv"] == "agg" and s["rhs"].get("adt", "").endswith("val::ValuePiece"):
                     flds = s["rhs"]["fields"]
-                    o = _through_copies(prog, f, leaf_origins(prog, f, s["rhs"]["ops"][flds.index("value")], at=b, terminal_only=True, opaque_index=True))
+                    o = _through_copies(prog, f, leaf_origins(prog, f, s["rhs"]["ops"][flds.index(_fn(prog, "VALPIECE.value"))], at=b, terminal_only=True, opaque_index=True))
                     ok = bool(o) and all(x.kind == "param" and x.data == 1 and not x.proj for x in o)
         ctx.check(ok, rule, "value-ctor", "a new value record's payload is not a copy of the bytes it was given", where=where(f))
         # the allocation path passes its value argument to the constructor
@@ -82,7 +83,7 @@ def check_payload_sources(ctx, prog, R, rule="payload-is-callers-bytes"):
         ctx.check(chain_ok, rule, "value-alloc-chain", "the value allocation path does not hand its value argument through to the record constructor unchanged", where=where(va))
     ov = R.get("OVERWRITE")
     if ov is not None:
-        st = [(b, s) for ff, b, s in field_stores(prog, "ValuePiece.value") if ff.id == ov.id]
+        st = [(b, s) for ff, b, s in field_stores(prog, pf(prog, "ValuePiece", "value")) if ff.id == ov.id]
         ok = len(st) == 1
         if ok:
             o = _through_copies(prog, ov, leaf_origins(prog, ov, st[0][1]["rhs"].get("a", {}), at=st[0][0], terminal_only=True, opaque_index=True))
